@@ -245,12 +245,19 @@ theorem stepOp_enter (r : Realm) (op : Op) :
     (∃ k, Enter k r (r.stepOp op) ∧ ((r.stepOp op).retries ≠ r.retries → r.busy k = false)) := by
   cases op with
   | msg k m => exact ⟨k, recvMsg_enter r k m⟩
-  | join k isLocal details roles cap => exact ⟨0, Enter.of_rn ⟨rfl, rfl⟩, fun h => absurd rfl h⟩
+  | join k isLocal details roles cap =>
+    refine ⟨0, ?_, ?_⟩ <;> rw [stepOp_join] <;> split
+    · exact Enter.of_rn ⟨rfl, rfl⟩
+    · exact Enter.of_rn ⟨rfl, rfl⟩
+    · exact fun h => absurd rfl h
+    · exact fun h => absurd rfl h
   | buffer k => exact ⟨0, Enter.of_rn ⟨rfl, rfl⟩, fun h => absurd rfl h⟩
   | drop k =>
-    refine ⟨0, ?_, ?_⟩ <;> rw [stepOp_drop] <;> split
+    refine ⟨0, ?_, ?_⟩ <;> rw [stepOp_drop] <;> split <;> (try split)
     · exact Enter.of_rn ⟨rfl, rfl⟩
     · exact Enter.of_rn ⟨rfl, rfl⟩
+    · exact Enter.of_rn ⟨rfl, rfl⟩
+    · exact fun h => absurd rfl h
     · exact fun h => absurd rfl h
     · exact fun h => absurd rfl h
   | stall k => exact ⟨0, Enter.of_rn ⟨rfl, rfl⟩, fun h => absurd rfl h⟩
